@@ -4,4 +4,4 @@ set -e
 cd "$(dirname "$0")"
 . ./env.sh
 mkdir -p bin evidence replays
-go build -o bin/verif ./cmd/verif
+go build -tags verif -o bin/verif ./cmd/verif
